@@ -116,9 +116,9 @@ def NodupIds (nodes : List NodeRow) : Prop := (nodes.map (·.id)).Nodup
 /-! ### the stages of a synchronised day -/
 
 /-- state after the reference deletion records -/
-def st1 (d : Defects) (s : Inst) (room : Nat) (b : Batch) : Inst := deleteEdges d s room b.edgeDels
+def st1 (d : Defects) (s : Inst) (room : Nat) (b : Batch) : Inst := deleteEdges d s (keepEdgeDels d room b.edgeDels)
 /-- state after the node deletion records -/
-def st2 (d : Defects) (s : Inst) (room : Nat) (b : Batch) : Inst := deleteNodes d (st1 d s room b) room b.nodeDels
+def st2 (d : Defects) (s : Inst) (room : Nat) (b : Batch) : Inst := deleteNodes d (st1 d s room b) (keepNodeDels d room b.nodeDels)
 /-- state after the rows -/
 def st3 (d : Defects) (s : Inst) (room : Nat) (b : Batch) : Inst := (nodeStage d (st2 d s room b) room b.nodes).1
 
